@@ -7,6 +7,25 @@ import (
 
 // GenConcScript (C08 / C09): stepped schedules of two to four clients on overlapping keys, writers
 // parked inside their critical sections, and free-running stress (some with a concurrent Merge).
+// GenMixScript (C09): a few records, then every kind of call at once from 2 to 16 goroutines, for a
+// drawn index type and small files that force rotations.
+func GenMixScript(r *Rng, hist map[string]int) []string {
+	var out []string
+	add := func(format string, a ...interface{}) { out = append(out, "E "+fmt.Sprintf(format, a...)) }
+	o := EngineGenOpts{FixedIO: -1}
+	c := genCfg(r, o, hist)
+	c.fsize = r.Pick(700, 4096, 4096, 40960)
+	add("dir db")
+	add("open %s", c)
+	for i := 0; i < 6; i++ {
+		add("put %x @%d:%d", fmt.Sprintf("mk%02d", i), 1+r.Intn(40), r.Intn(99999))
+	}
+	add("concmix %d %d %d", r.Pick(2, 3, 4, 8, 16), 20+r.Intn(60), r.Intn(1<<30))
+	hist["conc_mix"]++
+	add("close")
+	return out
+}
+
 func GenConcScript(r *Rng, stress bool, hist map[string]int) []string {
 	var out []string
 	add := func(format string, a ...interface{}) { out = append(out, "E "+fmt.Sprintf(format, a...)) }
@@ -140,6 +159,7 @@ func init() {
 		histp := fs.String("hist", "", "histogram output")
 		kind := fs.String("kind", "quick", "tier")
 		stressEvery := fs.Int("stress", 4, "every n-th scenario is a stress scenario")
+		mix := fs.Bool("mix", false, "C09: only scenarios that mix every kind of call")
 		_ = fs.Parse(args)
 		_ = kind
 		r := NewRng(*seed)
@@ -147,6 +167,10 @@ func init() {
 		var lines []string
 		for i := 0; i < *n; i++ {
 			lines = append(lines, fmt.Sprintf("S %d", i))
+			if *mix {
+				lines = append(lines, GenMixScript(r, h)...)
+				continue
+			}
 			lines = append(lines, GenConcScript(r, *stressEvery > 0 && i%*stressEvery == *stressEvery-1, h)...)
 		}
 		writeLines(*out, lines)
